@@ -48,6 +48,7 @@ def warm_start(
     # Number of particles released so far: the particle variables are written
     # for all of them; the identifiers on file may lack dead particles
     pid_max = len(f.dimensions["particle"]) if "particle" in f.dimensions else 0
+    pid_max = max(pid_max, int(getattr(f, "particles_released", 0)))
     if len(f.variables["pid"]) > 0:
         pid_max = max(pid_max, int(np.max(f.variables["pid"][:])) + 1)
 
